@@ -164,7 +164,7 @@ func (w *world) pointAddr(conn int) {
 	in.fired = true
 	w.inj = nil
 	w.stampNew()
-	w.lateReg = conn // a close injected here is followed by the registration: the connection is not "closed for good" yet
+	w.lateReg = conn                // a close injected here is followed by the registration: the connection is not "closed for good" yet
 	sk, sx := w.auth.kind, w.auth.x // the host's auth handler has not run yet: keep its script
 	w.apply(in.op)
 	w.auth.kind, w.auth.x = sk, sx
